@@ -88,6 +88,7 @@ class Query:
         self.group = group or harness
         self.native_srcs = native_srcs
         self.unwind_big = None
+        self.instrument = None
 
 
 class Builder:
@@ -273,6 +274,13 @@ class Runner:
         if rc != 0:
             raise RuntimeError('goto-cc link %s: %s' % (q.name, (e or o)[-3000:]))
         os.unlink(hobj)
+        ins = getattr(q, 'instrument', None)
+        if ins:
+            # e.g. --nondet-static-matching <regex>: start from arbitrary values of the library's own static state
+            rc, o, e, _ = sh(['goto-instrument'] + list(ins) + [out, out + '.i'], timeout=300)
+            if rc != 0 or not os.path.exists(out + '.i'):
+                raise RuntimeError('goto-instrument %s: %s' % (q.name, (e or o)[-1500:]))
+            os.replace(out + '.i', out)
         return out
 
     def unwind_args(self, q):
